@@ -8,6 +8,7 @@ import (
 	"path/filepath"
 	"sort"
 	"strings"
+	"syscall"
 	"testing"
 
 	"pgregory.net/rapid"
@@ -31,6 +32,8 @@ func snapTree(root string) map[string]string {
 		case info.Mode()&os.ModeSymlink != 0:
 			tgt, _ := os.Readlink(p)
 			out[rel] = "link:" + tgt
+		case !info.Mode().IsRegular():
+			out[rel] = "special:" + info.Mode().Type().String() // pipes and sockets are not read
 		default:
 			b, _ := os.ReadFile(p)
 			out[rel] = fmt.Sprintf("file:%d:%x", len(b), sha256.Sum256(b))
@@ -196,6 +199,22 @@ func TestC16Rapid(t *testing.T) {
 					sameDirRival = true
 					c.Pre = append(c.Pre, "same-stem-other-extension")
 				}
+			}
+			if rapid.IntRange(0, 3).Draw(t, "preSpecial") == 0 {
+				// an entry that is neither a regular file nor a directory, under a name that sorts before or after
+				// whatever is generated and that the scan ignores
+				sp := filepath.Join(last, rapid.SampledFrom([]string{"!first", "00-ctl", "~last"}).Draw(t, "specialName"))
+				switch kind := rapid.SampledFrom([]string{"fifo", "socket", "link-to-directory", "dangling-link"}).Draw(t, "specialKind"); kind {
+				case "fifo":
+					_ = syscall.Mkfifo(sp, 0o644)
+				case "socket":
+					_ = syscall.Mknod(sp, syscall.S_IFSOCK|0o644, 0)
+				case "link-to-directory":
+					_ = os.Symlink(filepath.Join(root, "sibling"), sp)
+				case "dangling-link":
+					_ = os.Symlink(filepath.Join(root, "no-such-target"), sp)
+				}
+				c.Pre = append(c.Pre, "special-entry-in-last-directory")
 			}
 			if rapid.IntRange(0, 3).Draw(t, "preUnrelated") == 0 {
 				_ = os.WriteFile(filepath.Join(last, "unrelated.yaml"), []byte(`{"cdiVersion":"0.6.0","kind":"other.vendor/thing","devices":[{"name":"z","containerEdits":{"env":["Z=1"]}}]}`), 0o644)
